@@ -6,6 +6,6 @@ def run_check(tier, seed, replay=None):
     return parser_family_check("C14", tier, seed, replay, CODE_SHAPE | CODE_PANIC,
         models=[("protocol", "MC_Protocol.tla", "MC_Protocol_%s.cfg" % tier)],
         suites=[("proto", "c14", ["--n", str(n), "--reps", str(reps)], "protocol")],
-        required_tags=["c14-model", "wellformed"],
+        required_tags=["c14-model", "wellformed", "c14-sweep", "c14-badvalue"],
         required_results=["Ok", "Err:ConsumerStopRequested", "Err:ConsumerError"],
         assumptions=BASE_ASSUMPTIONS + ["the consumer's own error value is a unique token per callback position, recovered through Display of the returned error"])
